@@ -139,6 +139,7 @@ class Evaluator:
             else module
         self.cls = cls
         self.funcs = dict(funcs or {})  # name -> python callable
+        self.ctor_hooks = {}            # class qualname -> callable
         self.max_depth = max_depth
         self._depth = 0
         self._enum_cache = {}
@@ -186,6 +187,7 @@ class Evaluator:
         if isinstance(node, ast.ClassDef):
             return ClassRef(owner.inner[name])
         sub = Evaluator(self.repo, owner.module, owner, self.funcs)
+        sub.ctor_hooks = self.ctor_hooks
         sub._depth = self._depth + 1
         if sub._depth > self.max_depth:
             raise Unknown("depth")
@@ -250,6 +252,16 @@ class Evaluator:
             return ("isinstance",)
         if name in ("True", "False", "None"):
             return {"True": True, "False": False, "None": None}[name]
+        if name == "NotImplemented":
+            return self.NOTIMPL
+        if name == "super":
+            return ("superfn",)
+        if name == "type":
+            return ("typefn",)
+        if name in ("TypeError", "ValueError", "KeyError", "IndexError",
+                    "Exception", "AssertionError", "NotImplementedError",
+                    "OverflowError", "AttributeError"):
+            return ("exc", name)
         raise Unknown(f"name {name}")
 
     def _e_Attribute(self, node, env):
@@ -278,9 +290,32 @@ class Evaluator:
             if base.ci is not None:
                 v = self.class_attr(base.ci, attr)
                 if isinstance(v, tuple) and v and v[0] == "function":
-                    return ("method", base, v[2], v[1])
+                    fn = v[2]
+                    decos = [unparse(d) for d in getattr(
+                        fn, "decorator_list", [])]
+                    if "property" in decos:
+                        return self.call_function(fn, [base], cls=v[1])
+                    if "staticmethod" in decos:
+                        return ("function", v[1], fn)
+                    return ("method", base, fn, v[1])
                 return v
             raise Unknown(f"field {attr}")
+        if isinstance(base, tuple) and base and base[0] == "super":
+            _, obj, cls = base
+            mro = self.repo.mro(obj.ci)
+            seen = cls is None
+            for c in mro:
+                if seen and isinstance(c, ClassInfo):
+                    if attr in c.methods:
+                        return ("method", obj, c.methods[attr], c)
+                    if attr in c.attrs and isinstance(c.attrs[attr],
+                                                      ast.Lambda):
+                        return ("method", obj, c.attrs[attr], c)
+                if c is cls:
+                    seen = True
+            if attr == "__init__":
+                return ("pyfunc", lambda *a, **k: None)
+            raise Unknown(f"super().{attr}")
         if isinstance(base, tuple) and base and base[0] == "module":
             r = self.repo.resolve_name(base[1], attr)
             if r and r[0] == "class":
@@ -302,9 +337,11 @@ class Evaluator:
         b = self.eval(node.right, env)
         return self.binop(type(node.op), a, b)
 
-    def binop(self, op, a, b):
+    def binop(self, op, a, b, inplace=False):
         if isinstance(a, (EnumVal, Flags)) or isinstance(b, (EnumVal, Flags)):
             return self._opcode_op(op, a, b)
+        if isinstance(a, Obj) or isinstance(b, Obj):
+            return self._obj_binop(op, a, b, inplace)
         if any(isinstance(x, (Obj, Opaque, ClassRef, tuple)) and not
                (isinstance(x, tuple) and (not x or not isinstance(x[0], str)
                 or x[0] not in ("function", "pyfunc", "method", "ext",
@@ -317,6 +354,52 @@ class Evaluator:
             raise Unknown(f"operator {op.__name__}")
         except Exception as e:
             raise Raised(f"{type(e).__name__}: {e}")
+
+    _DUNDER = {ast.Add: "add", ast.Sub: "sub", ast.Mult: "mul",
+               ast.Div: "truediv", ast.FloorDiv: "floordiv", ast.Mod: "mod",
+               ast.LShift: "lshift", ast.RShift: "rshift", ast.BitOr: "or",
+               ast.BitAnd: "and", ast.BitXor: "xor", ast.Pow: "pow"}
+    _CMPDUNDER = {ast.Eq: ("eq", "eq"), ast.NotEq: ("ne", "ne"),
+                  ast.Lt: ("lt", "gt"), ast.LtE: ("le", "ge"),
+                  ast.Gt: ("gt", "lt"), ast.GtE: ("ge", "le")}
+
+    def _dunder(self, obj, name):
+        if not isinstance(obj, Obj) or obj.ci is None:
+            return None
+        owner, node = self.repo.lookup(obj.ci, name)
+        if node is None:
+            return None
+        if isinstance(node, FUNC + (ast.Lambda,)):
+            return ("method", obj, node, owner)
+        # an alias such as ``__radd__ = __add__``
+        try:
+            v = self.class_attr(obj.ci, name)
+        except Unknown:
+            return None
+        if isinstance(v, tuple) and v and v[0] == "function":
+            return ("method", obj, v[2], v[1])
+        return None
+
+    NOTIMPL = ("notimplemented",)
+
+    def _obj_binop(self, op, a, b, inplace=False):
+        nm = self._DUNDER.get(op)
+        if nm is None:
+            raise Unknown("operator on object")
+        tries = []
+        if inplace:
+            tries.append((a, f"__i{nm}__", b))
+        tries.append((a, f"__{nm}__", b))
+        tries.append((b, f"__r{nm}__", a))
+        for obj, name, other in tries:
+            m = self._dunder(obj, name)
+            if m is None:
+                continue
+            r = self.call(m, [other])
+            if r == self.NOTIMPL:
+                continue
+            return r
+        raise Raised(f"TypeError: unsupported operand types for {nm}")
 
     def _opcode_op(self, op, a, b):
         def members(x):
@@ -340,7 +423,14 @@ class Evaluator:
         v = self.eval(node.operand, env)
         if isinstance(node.op, ast.Not):
             return not self.truth(v)
-        if isinstance(v, (Obj, Opaque, EnumVal, Flags)):
+        if isinstance(v, Obj):
+            nm = {ast.USub: "__neg__", ast.UAdd: "__pos__",
+                  ast.Invert: "__invert__"}[type(node.op)]
+            m = self._dunder(v, nm)
+            if m is None:
+                raise Raised(f"TypeError: bad operand for {nm}")
+            return self.call(m, [])
+        if isinstance(v, (Opaque, EnumVal, Flags)):
             raise Unknown("unary on abstract value")
         if isinstance(node.op, ast.USub):
             return -v
@@ -379,9 +469,15 @@ class Evaluator:
 
     def _e_Compare(self, node, env):
         left = self.eval(node.left, env)
+        res = True
         for op, right in zip(node.ops, node.comparators):
             r = self.eval(right, env)
-            if not self.compare(type(op), left, r):
+            res = self.compare(type(op), left, r)
+            if isinstance(res, Obj):
+                if len(node.ops) > 1:
+                    raise Unknown("chained comparison of objects")
+                return res
+            if not res:
                 return False
             left = r
         return True
@@ -398,6 +494,21 @@ class Evaluator:
             else:
                 res = a is b or (type(a) is type(b) and a == b)
             return res if op is ast.Is else not res
+        if (isinstance(a, Obj) or isinstance(b, Obj)) and op in \
+                self._CMPDUNDER:
+            fwd, rev = self._CMPDUNDER[op]
+            for obj, name, other in ((a, f"__{fwd}__", b),
+                                     (b, f"__{rev}__", a)):
+                m = self._dunder(obj, name)
+                if m is not None:
+                    r = self.call(m, [other])
+                    if r != self.NOTIMPL:
+                        return r
+            if op is ast.Eq:
+                return a is b
+            if op is ast.NotEq:
+                return a is not b
+            raise Raised("TypeError: comparison not supported")
         if isinstance(a, Opaque) or isinstance(b, Opaque):
             raise Unknown("comparison with opaque")
         if isinstance(a, Flags) or isinstance(b, Flags):
@@ -530,10 +641,31 @@ class Evaluator:
             kwargs[k.arg] = self.eval(k.value, env)
         return self.call(f, args, kwargs)
 
+    def construct(self, ci, args, kwargs):
+        obj = Obj(ci)
+        owner, init = self.repo.lookup(ci, "__init__")
+        if init is not None and isinstance(init, FUNC):
+            self.call_function(init, [obj] + list(args), kwargs, cls=owner)
+        elif args or kwargs:
+            if not any(isinstance(c, str) for c in self.repo.mro(ci)):
+                raise Raised("TypeError: object() takes no arguments")
+        return obj
+
     def call(self, f, args, kwargs=None):
         kwargs = kwargs or {}
+        if isinstance(f, ClassRef):
+            if f.ci.qualname in self.ctor_hooks:
+                return self.ctor_hooks[f.ci.qualname](self, f.ci, args,
+                                                      kwargs)
+            return self.construct(f.ci, args, kwargs)
         if isinstance(f, tuple) and f:
             if f[0] == "pyfunc":
+                if f[1] is abs and len(args) == 1 and isinstance(args[0],
+                                                                 Obj):
+                    m = self._dunder(args[0], "__abs__")
+                    if m is None:
+                        raise Raised("TypeError: bad operand for abs()")
+                    return self.call(m, [])
                 if any(isinstance(a, (Obj, Opaque, ClassRef))
                        for a in list(args) + list(kwargs.values())):
                     raise Unknown("pure builtin on abstract value")
@@ -552,6 +684,17 @@ class Evaluator:
                     raise Raised(f"{type(e).__name__}: {e}")
             if f[0] == "isinstance":
                 return self._isinstance(args[0], args[1])
+            if f[0] == "superfn":
+                slf = getattr(self, "_self", None)
+                if slf is None:
+                    raise Unknown("super() outside a method")
+                return ("super", slf, self.cls)
+            if f[0] == "typefn" and len(args) == 1:
+                if isinstance(args[0], Obj) and args[0].ci is not None:
+                    return ClassRef(args[0].ci)
+                raise Unknown("type() of non-object")
+            if f[0] == "exc":
+                return ("excinst", f[1], args)
             if f[0] == "function":
                 return self.call_function(f[2], args, kwargs,
                                           cls=f[1], closure=f[3] if len(f) > 3
@@ -562,6 +705,9 @@ class Evaluator:
         raise Unknown(f"call of {f!r}")
 
     def _isinstance(self, v, t):
+        if isinstance(t, tuple) and len(t) == 2 and t[0] == "pyfunc" \
+                and isinstance(t[1], type):
+            t = ("type", t[1])
         if isinstance(t, tuple) and t and t[0] == "type":
             if isinstance(v, (Obj, EnumVal, Flags, ClassRef)):
                 return False
@@ -590,7 +736,10 @@ class Evaluator:
                 raise Unknown("call depth")
             sub = Evaluator(self.repo, fn._module, cls or
                             self.repo.enclosing_class(fn), self.funcs)
+            sub.ctor_hooks = self.ctor_hooks
             sub._depth = self._depth
+            sub._self = args[0] if args and isinstance(args[0], Obj) \
+                else None
             env = dict(closure) if isinstance(closure, dict) else {}
             a = fn.args
             params = [p.arg for p in a.posonlyargs + a.args]
@@ -636,6 +785,9 @@ class Evaluator:
         if isinstance(s, ast.Expr):
             if isinstance(s.value, ast.Constant):
                 return None
+            if isinstance(s.value, ast.Call):
+                self.eval(s.value, env)
+                return None
             raise Unknown(f"expression statement {unparse(s)}")
         if isinstance(s, ast.Pass):
             return None
@@ -648,7 +800,8 @@ class Evaluator:
             return None
         if isinstance(s, ast.AugAssign):
             cur = self.eval(_load(s.target), env)
-            v = self.binop(type(s.op), cur, self.eval(s.value, env))
+            v = self.binop(type(s.op), cur, self.eval(s.value, env),
+                           inplace=True)
             self.assign(s.target, v, env)
             return None
         if isinstance(s, ast.If):
@@ -661,6 +814,28 @@ class Evaluator:
             return None
         if isinstance(s, ast.Raise):
             raise Raised(unparse(s.exc) if s.exc else "re-raise")
+        if isinstance(s, FUNC):
+            env[s.name] = ("function", self.cls, s, env)
+            return None
+        if isinstance(s, ast.Try) and not s.finalbody:
+            try:
+                r = self.run_block(s.body, env)
+            except Raised as e:
+                for h in s.handlers:
+                    names = [] if h.type is None else [
+                        unparse(x) for x in (h.type.elts if isinstance(
+                            h.type, ast.Tuple) else [h.type])]
+                    if h.type is None or any(
+                            e.what.startswith(n.split(".")[-1])
+                            or n in ("Exception", "BaseException")
+                            for n in names):
+                        if h.name:
+                            env[h.name] = Opaque("exception " + e.what)
+                        return self.run_block(h.body, env)
+                raise
+            if r is not None:
+                return r
+            return self.run_block(s.orelse, env)
         raise Unknown(f"statement {type(s).__name__}")
 
     def assign(self, t, v, env):
@@ -698,13 +873,16 @@ class _ClassBodyEnv(dict):
             return True
         if name == self.upto:
             return False
-        return name in self.ci.attrs or name in self.ci.inner
+        return name in self.ci.attrs or name in self.ci.inner \
+            or name in self.ci.methods
 
     def __getitem__(self, name):
         if dict.__contains__(self, name):
             return dict.__getitem__(self, name)
         if name in self.ci.inner:
             return ClassRef(self.ci.inner[name])
+        if name in self.ci.methods and name not in self.ci.attrs:
+            return ("function", self.ci, self.ci.methods[name])
         return self.ev.class_attr(self.ci, name)
 
 
